@@ -3,10 +3,12 @@ package c11
 import (
 	"errors"
 	"fmt"
+	"sort"
 	"strconv"
 	"strings"
 
 	"github.com/EliCDavis/polyform/nodes"
+	"github.com/EliCDavis/vector/vector3"
 )
 
 // ---------------------------------------------------------------------------
@@ -79,6 +81,71 @@ func fChkS(tag int, in string) (string, bool) {
 		return "e" + strconv.Itoa(tag) + "!", true // fails on a third of all strings
 	}
 	return "k" + strconv.Itoa(tag) + "<" + in + ">", false
+}
+
+// Composite-valued sources (slice- and struct-typed parameter.Value): the value is
+// turned into a string by an adapter node, from where it flows through the graph.
+type vec3 = [3]float64
+
+// Rec is the harness' struct-typed parameter value: scalar fields, a slice, a
+// nested struct and a map (a JSON decoder treats each of them differently when it
+// decodes into memory that already holds a value).
+type RecD struct {
+	X float64 `json:"x"`
+	Y float64 `json:"y"`
+}
+
+type Rec struct {
+	A int            `json:"a"`
+	B string         `json:"b"`
+	C []int          `json:"c"`
+	D RecD           `json:"d"`
+	M map[string]int `json:"m"`
+}
+
+func (r Rec) clone() Rec {
+	out := Rec{A: r.A, B: r.B, D: r.D}
+	out.C = append([]int(nil), r.C...)
+	if len(r.M) > 0 {
+		out.M = map[string]int{}
+		for k, v := range r.M {
+			out.M[k] = v
+		}
+	}
+	return out
+}
+
+func ff(f float64) string { return strconv.FormatFloat(f, 'g', -1, 64) }
+
+func fVFmt(tag int, wired bool, vs []vec3) string {
+	if !wired {
+		return "v" + strconv.Itoa(tag) + "<" + nilS + ">"
+	}
+	parts := make([]string, 0, len(vs))
+	for _, v := range vs {
+		parts = append(parts, ff(v[0])+" "+ff(v[1])+" "+ff(v[2]))
+	}
+	return "v" + strconv.Itoa(tag) + "<" + strconv.Itoa(len(vs)) + ":" + strings.Join(parts, ";") + ">"
+}
+
+func fRFmt(tag int, wired bool, r Rec) string {
+	if !wired {
+		return "r" + strconv.Itoa(tag) + "<" + nilS + ">"
+	}
+	cs := make([]string, 0, len(r.C))
+	for _, c := range r.C {
+		cs = append(cs, strconv.Itoa(c))
+	}
+	keys := make([]string, 0, len(r.M))
+	for k := range r.M {
+		keys = append(keys, k)
+	}
+	sort.Strings(keys)
+	ms := make([]string, 0, len(keys))
+	for _, k := range keys {
+		ms = append(ms, strconv.Quote(k)+"="+strconv.Itoa(r.M[k]))
+	}
+	return "r" + strconv.Itoa(tag) + "<" + strconv.Itoa(r.A) + "|" + strconv.Quote(r.B) + "|" + strings.Join(cs, ",") + "|" + ff(r.D.X) + "," + ff(r.D.Y) + "|" + strings.Join(ms, ",") + ">"
 }
 
 func fUntil(tag int, k int, v int) string {
@@ -261,6 +328,40 @@ func (d ChkS) Process() (string, error) {
 	return v, nil
 }
 
+type VFmt struct {
+	In nodes.NodeOutput[[]vector3.Float64]
+	R  *rec
+}
+
+func (d VFmt) Process() (string, error) {
+	d.R.hit()
+	if d.In == nil {
+		return fVFmt(d.R.tag, false, nil), nil
+	}
+	return fVFmt(d.R.tag, true, toVec3s(d.In.Value())), nil
+}
+
+func toVec3s(in []vector3.Float64) []vec3 {
+	out := make([]vec3, 0, len(in))
+	for _, v := range in {
+		out = append(out, vec3{v.X(), v.Y(), v.Z()})
+	}
+	return out
+}
+
+type RFmt struct {
+	In nodes.NodeOutput[Rec]
+	R  *rec
+}
+
+func (d RFmt) Process() (string, error) {
+	d.R.hit()
+	if d.In == nil {
+		return fRFmt(d.R.tag, false, Rec{}), nil
+	}
+	return fRFmt(d.R.tag, true, d.In.Value()), nil
+}
+
 // Sel reads Cond and then exactly one of A / B.
 type Sel struct {
 	Cond nodes.NodeOutput[int]
@@ -319,13 +420,20 @@ type typ int
 const (
 	tS typ = iota
 	tI
+	tV // []vector3.Float64 (parameter.Vector3Array); sources only
+	tR // Rec; sources only
 )
 
 func (t typ) String() string {
-	if t == tS {
+	switch t {
+	case tS:
 		return "string"
+	case tI:
+		return "int"
+	case tV:
+		return "[]vector3.Float64"
 	}
-	return "int"
+	return "c11.Rec"
 }
 
 type inSpec struct {
@@ -357,6 +465,8 @@ const (
 	kUntil
 	kChkI
 	kChkS
+	kVFmt
+	kRFmt
 )
 
 var kinds = []kind{
@@ -374,6 +484,8 @@ var kinds = []kind{
 	kUntil: {name: "Until", out: tS, arr: &inSpec{"Values", tI}, lazy: true},
 	kChkI:  {name: "ChkI", out: tI, named: []inSpec{{"In", tI}}, fails: true},
 	kChkS:  {name: "ChkS", out: tS, named: []inSpec{{"In", tS}}, fails: true},
+	kVFmt:  {name: "VFmt", out: tS, named: []inSpec{{"In", tV}}},
+	kRFmt:  {name: "RFmt", out: tS, named: []inSpec{{"In", tR}}},
 }
 
 var eagerKinds = []int{kU1, kS2, kS3, kSArr, kSMix, kI2, kIArr, kSLen, kIFmt, kChkI, kChkS, kChkI, kChkS}
